@@ -195,6 +195,41 @@ BUILTIN_EXC = {
 }
 
 
+def _module_scope_bindings(module):
+    """Names that may be bound at module scope by anything the extractor's index does not cover (loop targets,
+    `global` declarations, with/except targets, star imports -> '*' makes every name possibly bound)."""
+    cached = getattr(module, "_scope_bindings", None)
+    if cached is not None:
+        return cached
+    names = set()
+
+    class AnyName(set):
+        def __contains__(self, item):
+            return True
+
+    star = False
+
+    def visit(n, module_scope):
+        nonlocal star
+        for c in ast.iter_child_nodes(n):
+            if isinstance(c, ast.Global):
+                names.update(c.names)
+            if isinstance(c, ast.ImportFrom) and any(a.name == "*" for a in c.names):
+                star = True
+            inner = module_scope and not isinstance(c, (ast.FunctionDef, ast.AsyncFunctionDef, ast.Lambda, ast.ClassDef, ast.ListComp, ast.SetComp, ast.DictComp, ast.GeneratorExp))
+            if inner and isinstance(c, ast.Name) and isinstance(c.ctx, (ast.Store, ast.Del)):
+                names.add(c.id)
+            if inner and isinstance(c, ast.ExceptHandler) and c.name:
+                names.add(c.name)
+            if inner and isinstance(c, ast.alias):
+                names.add((c.asname or c.name).split(".")[0])
+            visit(c, inner)
+
+    visit(module.tree, True)
+    module._scope_bindings = AnyName() if star else names
+    return module._scope_bindings
+
+
 def loop_ordinals(fnode):
     """Number the loops of a function body in source order (nested defs excluded)."""
     out = {}
@@ -316,6 +351,18 @@ class Interp:
     # ---------------------------------------------------------------- name resolution
     def resolve_global(self, module, name):
         kind, mod, nm = extract.resolve_name(module.name, name)
+        if (
+            kind == "builtin"
+            and not self.in_spec
+            and self.frames
+            and not name.startswith("_")
+            and name not in self.builtins
+            and name not in BUILTIN_EXC
+            and not hasattr(pybuiltins, name)
+            and name not in _module_scope_bindings(module)
+        ):
+            # a name bound nowhere (no local, no module-level binding, no star import, not a builtin): Python raises NameError
+            self.raise_("NameError", f"name {name!r} is not defined")
         return self._materialize(kind, mod, nm, name)
 
     def _materialize(self, kind, mod, nm, origname):
@@ -335,7 +382,10 @@ class Interp:
         if kind == "module":
             xm = getattr(self.registry, "extra_modules", None)
             if xm and mod.split(".")[0] in xm:
-                return xm[mod.split(".")[0]]
+                cur = xm[mod.split(".")[0]]
+                for part in mod.split(".")[1:]:
+                    cur = self.get_attr(cur, part)
+                return cur
             if mod in self.modules:
                 return self.modules[mod]
             top = mod.split(".")[0]
